@@ -20,6 +20,9 @@ import (
 
 const childEnv = "DVH_CHILD_RANGE"
 
+// childCases is the number of cases one child process serves before it is replaced.
+const childCases = 25
+
 func inChild() (from, to int, ok bool) {
 	v := os.Getenv(childEnv)
 	if v == "" {
@@ -80,7 +83,18 @@ func (c *ctx) isolated(n int, stall time.Duration, f func(i int)) error {
 				if stop {
 					break
 				}
-				lines, done, reason := runChild(next, hi, stall, stats[w])
+				// a child serves a limited number of cases: what the implementation leaks (goroutines of
+				// operations that returned an error, their buffers) goes away with the process
+				top := next + childCases
+				if top > hi {
+					top = hi
+				}
+				lines, done, reason := runChild(next, top, stall, stats[w])
+				if done >= top && top < hi {
+					outs[w] = append(outs[w], lines...)
+					next = done
+					continue
+				}
 				if done < hi && reason == "hang" {
 					// a stall may be the machine, not the code: run the stalled case once more, alone,
 					// with six times the patience, and keep that run's verdict
@@ -179,7 +193,7 @@ func (t *stderrTail) String() string {
 		}
 	}
 	if len(keep) > 12 {
-		keep = keep[:12]
+		keep = keep[len(keep)-12:]
 	}
 	s := strings.Join(keep, " | ")
 	if len(s) > 1500 {
